@@ -144,3 +144,26 @@ package calc
 //@   requires conf != nil && !c28Resolver
 //@   ghost at call NewL3RouteResolver: c28Resolver = true
 //@   ensures conf.Encapsulation.IPIPEnabled && felixIPIP(conf.ProgramClusterRoutes) ==> c28Resolver
+
+//@ -- Policy bookkeeping: every entry removed from a tier's sorted tree is the entry that tier's policy table
+//@ -- currently holds for the key (key and stored metadata) - the tree is ordered by the metadata, so deleting with
+//@ -- other metadata would leave a stale entry behind - and the entry inserted is the new metadata under the key.
+//@ func (*PolicySorter).tierForPolicy
+//@   property C03
+//@   option safety off
+//@   ensures meta == nil && res1 != nil ==> (key in res1.Policies)
+//@   ensures meta != nil ==> res0 == meta.Tier && res1 == ((meta.Tier in poc.tiers) ? poc.tiers[meta.Tier] : nil)
+//@   assigns nothing
+//@ func (*policyMetadata).Equals
+//@   property C03
+//@   option safety off
+//@   ensures m != nil && other != nil && res ==> m.Tier == other.Tier && m.Flags == other.Flags
+//@   assigns nothing
+//@ spec macro c03SameMeta(a *policyMetadata, m map[model.PolicyKey]policyMetadata, k model.PolicyKey) bool = a != nil && (k in m) && a.Tier == m[k].Tier && a.Flags == m[k].Flags && (a.Order == m[k].Order || (isNaN(a.Order) && isNaN(m[k].Order)))
+//@ func (*PolicySorter).UpdatePolicy
+//@   property C03
+//@   option safety off
+//@   ghost at call Delete#1: check item.Key == key && c03SameMeta(item.Value, oldTierInfo.Policies, key)
+//@   ghost at call Delete#3: check item.Key == key && c03SameMeta(item.Value, tierInfo.Policies, key)
+//@   ghost at call Delete#5: check item.Key == key && c03SameMeta(item.Value, tierInfo.Policies, key)
+//@   ghost at call ReplaceOrInsert#2: check item.Key == key && item.Value == newPolicy
